@@ -14,4 +14,7 @@ def run(ctx):
 
 
 def extra(ctx, res):
+    from ._clients import CC, DEGREE, VISITS, check_filter_clients
+
+    check_filter_clients(ctx, res, DEGREE + CC + VISITS)
     return res
